@@ -364,6 +364,14 @@ func genC01(c *Ctx) {
 	var prevMax, prevThr int
 	for i := 0; i < 260*c.scale; i++ {
 		s := randSquareCase(c, r, false, true)
+		if i == 17 {
+			s = denseV1Cases(c, r)[0]
+		}
+		if i >= 30 && i < 36 {
+			if bf := brimFullCases(c, r); i-30 < len(bf) {
+				s = bf[i-30]
+			}
+		}
 		if i%9 == 4 {
 			// only blob transactions (the kept list is then the blob group alone)
 			var only []genTx
@@ -698,6 +706,7 @@ func genC04(c *Ctx) {
 		list = append(list, randSquareCase(c, r, true, r.Bool(40)))
 	}
 	list = append(list, manyTxManyBlobCases(c, r)...)
+	list = append(list, brimFullCases(c, r)...)
 	nModel := len(list)
 	list = append(list, bigSquareCases(c, r, true)...) // Go side only
 	for ci, s := range list {
@@ -1247,6 +1256,62 @@ func exportThenShiftSweep(c *Ctx, r *Rng, site string) {
 	}
 	c.count("export_then_index_shift_sweep")
 	c.goOnly++
+}
+
+// denseV1Cases: a 16x16 square filled to the brim with ONE-SHARE version 1 blobs (438..458 data bytes + the
+// 20-byte signer) carried by a few transactions of 39 blobs each: the raw transaction bytes (blob envelopes
+// included) exceed the square's 256*512 bytes although everything fits - any "obviously safe" size pre-check
+// on raw lengths is wrong here.
+func denseV1Cases(c *Ctx, r *Rng) []sqCase {
+	nss := blobNamespaces(r, 3)
+	mk := func(n int) genTx {
+		bl := make([]genBlob, n)
+		sizes := make([]uint32, n)
+		for j := range bl {
+			bl[j] = genBlob{ns: pick(r, nss), ver: 1, signer: randSigner(r), data: r.Bytes(456 + r.Intn(3))}
+			sizes[j] = uint32(len(bl[j].data))
+		}
+		_ = sizes
+		return genTx{raw: blobTxWithInner(r.Bytes(8+r.Intn(8)), bl), blobs: bl} // short inner tx: two PFB shares in all
+	}
+	var l []genTx
+	for i := 0; i < 6; i++ {
+		l = append(l, mk(39))
+	}
+	l = append(l, mk(20), mk(3), mk(1))
+	c.count("dense_one_share_v1_blobs")
+	return []sqCase{{txs: l, max: 16, thr: 64}}
+}
+
+// brimFullCases: a square of side 2, 4 or 8 filled COMPLETELY - one blob of max*max-1 full shares behind a
+// wrapped PFB that itself fills its compact share to the last byte (the largest inner transaction that keeps
+// the PFB in one share): no tail padding, no slack anywhere, and more raw transaction bytes than
+// 482 * max*max.  Any size pre-check on raw lengths, and any off-by-one in the capacity test, shows here.
+func brimFullCases(c *Ctx, r *Rng) []sqCase {
+	var out []sqCase
+	nss := blobNamespaces(r, 2)
+	for _, max := range []int{2, 4, 8} {
+		b := randBlob(r, nss, 100)
+		b.ver, b.signer = 0, nil
+		b.data = r.Bytes(478 + 482*(max*max-2))
+		bl := []genBlob{b}
+		best := -1
+		for L := 300; L <= 470; L++ {
+			raw := blobTxWithInner(make([]byte, L), bl)
+			if refEstimate(nil, []refTx{classify(raw)}, 64) == max*max {
+				best = L
+			}
+		}
+		if best < 0 {
+			continue
+		}
+		for _, d := range []int{0, 1} { // exactly full, and one byte too many in the PFB (refused by Build)
+			raw := blobTxWithInner(r.Bytes(best+d), bl)
+			out = append(out, sqCase{txs: []genTx{{raw: raw, blobs: bl}, {raw: r.Bytes(1 + r.Intn(50))}}, max: max, thr: 64})
+			c.count("brim_full_square")
+		}
+	}
+	return out
 }
 
 // duplicateTxCases: lists in which the same ordinary transaction (byte-identical) occurs several times with
